@@ -203,6 +203,36 @@ def compare(ctx, im, text, twin, envs, twin_envs, payload, position, sent, with_
         ctx.seen("audit_events", e.split(":")[0])
 
 
+def _mirror_strings(obj, out, depth=0):
+    """printed forms of every node / value of a (pydantic) syntax tree"""
+    if depth > 12:
+        return
+    for f in (str, repr):
+        try:
+            out.add(f(obj))
+        except Exception:  # noqa: BLE001
+            pass
+    if hasattr(obj, "__fields__") and hasattr(obj, "__dict__"):
+        for f in ("json", "dict"):
+            try:
+                out.add(str(getattr(obj, f)()))
+            except Exception:  # noqa: BLE001
+                pass
+        for k, v in obj.__dict__.items():
+            out.add(k)
+            _mirror_strings(v, out, depth + 1)
+    elif isinstance(obj, (tuple, list, set, frozenset)):
+        for v in obj:
+            _mirror_strings(v, out, depth + 1)
+    elif isinstance(obj, dict):
+        for k, v in obj.items():
+            _mirror_strings(k, out, depth + 1)
+            _mirror_strings(v, out, depth + 1)
+    elif hasattr(obj, "value") and hasattr(obj, "name"):  # enum members
+        out.add(str(obj.value))
+        out.add(str(obj.name))
+
+
 def run(ctx):
     im = impl()
     rnd = ctx.rnd
@@ -267,6 +297,42 @@ def run(ctx):
                 envs = [dict(u=u, f=f) for u in ("u1", 7) for f in fvals]
                 tenvs = [dict(u=u, f=f) for u in ("u1", 7) for f in tvals]
                 compare(ctx, im, text, twin, envs, tenvs, payload, pos, sent, with_black=not ctx.quick() or idx % 4 == 0)
+        # literals that mirror the program's own syntax tree: the printed forms (str, repr, json) of every node and value
+        # of the tree the real parser builds for this very program, and the fragments of the code generated for it - a
+        # renderer that memoises, de-duplicates or looks terms up by their printed form confuses such a literal with
+        # the term it spells (seed C13-15)
+        for pos, tmpl in POSITIONS.items():
+            n = NSLOTS.get(pos, 1)
+            twin = tmpl([f'"s{i}"' for i in range(n)])
+            mirrors = set()
+            st = im.parse(twin)
+            if st[0] == "ok":
+                _mirror_strings(st[1], mirrors)
+            try:
+                code = im.generate_text(twin, False)
+                import re as _re
+
+                mirrors.update(_re.findall(r"[A-Za-z_][A-Za-z_0-9]*|'[^'\n]*'|\"[^\"\n]*\"|\([^()\n]*\)", code))
+            except Exception:  # noqa: BLE001
+                pass
+            mirrors = sorted(m for m in mirrors if 0 < len(m) <= 300 and expressible(m) and m not in ("s0", "s1"))
+            ctx.note("mirror_payloads/" + pos, len(mirrors))
+            for mi, payload in enumerate(mirrors):
+                idx += 1
+                if not ctx.mine(idx) or (ctx.quick() and (mi + len(pos)) % 2):
+                    continue
+                text = tmpl([q(payload)] * n)
+                if ref_parse(text)[0] != "ok":
+                    ctx.count("harness/reference-did-not-accept")
+                    continue
+                fvals = [payload, "other", (payload, "y"), payload + "x", "s0", "f", 1]
+                tvals = ["s0", "other", ("s0", "y"), "s0x", "s0", "f", 1]
+                if pos == "ordering-operand":
+                    fvals, tvals = [payload, "other", payload + "x", ""], ["s0", "other", "s0x", ""]
+                envs = [dict(u=u, f=f) for u in ("u1", 7) for f in fvals]
+                tenvs = [dict(u=u, f=f) for u in ("u1", 7) for f in tvals]
+                ctx.count("mirror-payload-cases")
+                compare(ctx, im, text, twin, envs, tenvs, payload, "mirror:" + pos, sent, with_black=not ctx.quick() or idx % 4 == 0)
         # comments are source text too: nothing written in a comment may reach the generated program (docstrings, headers
         # and log messages that quote the source are where it would)
         cpos = {
